@@ -24,12 +24,14 @@ RULE = ('frames with 1-6 locals drawn from a sharing-heavy generator (same objec
         'sharing, a cycle or a watch; distinct by canonical case')
 ASSUMPTIONS = ['identity of watch temporaries cannot be compared (they are freed); their type/text is compared instead']
 REQUIRE = {'capture_snapshots': 60, 'snapshots_checked': 300, 'references_resolved': 3000, 'shared_objects_seen': 100, 'cycles_seen': 50,
-           'temp_watches': 200, 'budget_hit_cases': 10, 'locals_of_locals_cases': 10}
+           'temp_watches': 200, 'budget_hit_cases': 10, 'locals_of_locals_cases': 10,
+           'meetings_inside_the_collector': 15}
 
 
 def plan(tier, seed):
     n = {'quick': 1920, 'thorough': 28800}[tier]
-    return split_seeds('d%s' % seed, n, 14, 'dedup') + split_seeds('k%s' % seed, n // 8, 2, 'capture')
+    return (split_seeds('d%s' % seed, n, 14, 'dedup') + split_seeds('k%s' % seed, n // 8, 2, 'capture') +
+            split_seeds('m%s' % seed, n // 40, 2, 'meeting'))
 
 
 TEMP_WATCHES = ['[{a}]', '({a}, {b})', 'str({a})', '{{"k": {a}}}', '[1, 2, 3]', '"lit" + "eral"', '1/0', 'nope_zz',
@@ -282,12 +284,105 @@ def _skel(v, depth=0):
     return snapcheck.type_name(v)
 
 
+class _MeetInside:
+    """Rendering this value waits (briefly) for the other thread to be rendering its own: both threads are then inside
+    the collector at the same moment."""
+
+    BARRIERS = {}     # tag -> barrier (kept off the instances: their attributes are compared, and these change)
+    MET = set()
+
+    def __init__(self, tag):
+        self.tag = tag
+
+    def __str__(self):
+        import threading as _t
+        try:
+            type(self).BARRIERS[self.tag].wait(0.5)
+            type(self).MET.add(self.tag)
+        except (_t.BrokenBarrierError, KeyError):
+            pass
+        return 'meet-%s' % self.tag
+
+
+def case_meeting(seed, out, spec, wd):
+    """Two threads reach (different) tracepoints at once and collect at the same time: each snapshot's table is its
+    own - closed, and describing its own frame."""
+    import threading
+    from vf.rig import Rig
+    r = Rng('c07m', seed)
+    path = hostframe.write_host(wd, ['first', 'second', 'third'], tag='meet')
+    base = os.path.basename(path)
+    mod = hostframe.load(path)
+    line = hostframe.markers(path)['hit']
+    rig = Rig(custom={}, host_dir=wd, plugins=[])
+    watches = r.pick([[], ['[first, second]'], ['second', 'len(str(third))']])
+    rig.install([line_trigger('tpm', base, line, {'fire_count': '-1', 'fire_period': '0'}, watches)])
+    barrier = threading.Barrier(2)
+    _MeetInside.MET.clear()
+    gg = graphs.GraphGen(r, hostile_p=0.0, max_depth=2, width=3)
+    vals = {}
+    for tag in ('a', 'b'):
+        _MeetInside.BARRIERS[tag] = barrier
+        vals[tag] = [_MeetInside(tag), gg.value(), [tag, gg.value()]]
+    stacks = {}
+
+    def post(ev, frame, arg):
+        if ev.kind == 'line' and ev.line == line and ev.base == base:
+            stacks[threading.current_thread().name] = snapcheck.read_stack(frame)
+
+    rig.post = post
+
+    def body():
+        ts = [threading.Thread(target=mod.entry, args=tuple(vals[tag]), name='meet-' + tag) for tag in ('a', 'b')]
+        for t in ts:
+            t.start()
+        for t in ts:
+            t.join(20)
+        return any(t.is_alive() for t in ts)
+
+    hung, exc = rig.run(body)
+    pushed = list(rig.push.pushed)
+    rig.cleanup()
+    replay = replay_spec(spec, seed)
+    met = _MeetInside.MET == {'a', 'b'}
+    _MeetInside.BARRIERS.clear()
+    witness = {'watches': watches, 'threads_met_inside_the_collector': met, 'snapshots': len(pushed)}
+    if hung or exc is not None:
+        out.inconc('C07 meeting threads did not finish (%r)' % (exc,))
+        return
+    probs = snapcheck.Problems()
+    if len(pushed) != 2:
+        probs.add('presence:no-snapshot', '%d snapshots for two hits' % len(pushed))
+    for rec in pushed:
+        snap = rec.snapshot
+        snapcheck.check_closed(snap, probs)
+        tname = [n for n, st in stacks.items() if st and id(st[0].locals.get('first')) == id(vals[n[-1]][0])]
+        who = next((n for n in stacks if any(str(id(vals[n[-1]][0])) == v.hash for v in snap.var_lookup.values())), None)
+        if who is None:
+            probs.add('fidelity:wrong-object', 'snapshot does not contain the first local of either thread')
+            continue
+        snapcheck.check_frame_vars(snap, stacks[who], 'single_frame', {'max_str': snapcheck.default_limits()['max_str'],
+                                                                       'max_coll': None}, probs, strict_children=None)
+        for w in snap.watches:
+            if w.result is not None and w.result.vid not in snap.var_lookup:
+                probs.add('closure:dangling-reference', 'watch %r -> id %r is not in this snapshot\'s table' % (
+                    w.expression, w.result.vid))
+    for mech, what in probs:
+        out.violation(mech, what, witness, replay)
+    out.count('meeting_cases')
+    if met:
+        out.count('meetings_inside_the_collector')
+    out.case({'meeting': watches, 'seed': str(seed)}, nontrivial=met, sample=witness)
+
+
 def run_shard(spec, out):
     wd = Workdir('c07')
     try:
         for seed in spec_seeds(spec):
             if spec['kind'] == 'capture':
                 case_capture(seed, out, spec, wd.path)
+            elif spec['kind'] == 'meeting':
+                case_meeting(seed, out, spec, wd.path)
             else:
                 case_dedup(seed, out, spec, wd.path)
     finally:
